@@ -9,6 +9,8 @@
                                                          a partial-deposit request at the API (op = 0: the Byzantine operator's);
                                                          id names the signature's bytes
      Get   {op, lock, v, code, resp}                     a full-deposit request and what the API answered
+     Fn    {f: "newmsg" | "verify" | "dedup" | "max" | "readback", arguments, result}
+                                                         a call of a function of eth2util/deposit / a directory read back
      Done  {c, ok, panic, lockSame, files: [{fa, wellformed, entries: [{v, w, a, by, roots, fork}]}]}
                                                          the command returned; its output directory afterwards
      End
@@ -87,10 +89,25 @@ TDone == /\ IsEvent("Done") /\ Ev.c \in Cmds
             /\ Named("Files", IF r.kind = "fetch" THEN FilesMatch(Ev.files, disk[r.op][r.dir]) ELSE Len(Ev.files) = 0)
             /\ Named("FileContents", FilesSane(Ev.files))
          /\ Finish(Ev.c) /\ UNCHANGED ids
+\* a call of one of the functions of eth2util/deposit; a written directory read back with ReadDepositDataFiles
+P(x) == <<x[1], x[2]>>
+Ps(s) == [j \in DOMAIN s |-> P(s[j])]
+ReadEntries(f) == [i \in DOMAIN f.entries |-> EntryOf(f.entries[i])]
+TFn == /\ IsEvent("Fn") /\ UNCHANGED <<vars, ids>>
+       /\ CASE Ev.f = "newmsg" -> /\ Named("NewMessage", Ev.ok = NewMessageOK(Ev.addr \in {"A", "B"}, P(Ev.gwei), Ev.comp))
+                                   /\ Named("NewMessageCreds", Ev.ok => (Ev.creds = CredsOfAddr(Ev.addr, Ev.comp) /\ Ev.outgwei = Ev.gwei /\ Ev.outv = Ev.v))
+            [] Ev.f = "verify" -> Named("VerifyDepositAmounts", Ev.ok = VerifyAmountsOK(Ps(Ev.amts), Ev.comp))
+            [] Ev.f = "dedup" -> Named("DedupAmounts", Ps(Ev.out) = Dedup(Ps(Ev.amts)) /\ Ev.inputKept)
+            [] Ev.f = "max" -> Named("MaxDepositAmount", P(Ev.out) = <<MaxEth(Ev.comp), 0>>)
+            [] Ev.f = "readback" -> LET dir == disk[Ev.op][Ev.dir] IN
+                                    /\ Named("ReadBackResult", dir # {} => Ev.ok)
+                                    /\ Named("ReadBack", /\ Len(Ev.files) = Cardinality(dir)
+                                                          /\ \A j \in DOMAIN Ev.files : \E f \in dir : f.a = Ev.files[j].a /\ BagEq(ReadEntries(Ev.files[j]), f.es))
+            [] OTHER -> FALSE
 TEnd == /\ IsEvent("End") /\ UNCHANGED <<vars, ids>>
         /\ Named("AllReturned", \A c \in Cmds : cmd[c].pc \in {"idle", "done"})
 
-TraceNext == TReset \/ TStart \/ TPostCmd \/ TPostByz \/ TGet \/ TDone \/ TEnd
+TraceNext == TReset \/ TStart \/ TPostCmd \/ TPostByz \/ TGet \/ TDone \/ TFn \/ TEnd
 TraceSpec == TraceInit /\ [][TraceNext]_tvars
 Mark == /\ CheckInv("TypeOK", TypeOK) /\ CheckInv("FetchSound", FetchSound) /\ CheckInv("SignedInRange", SignedInRange)
         /\ CheckInv("FetchAtomic", FetchAtomic) /\ CheckInv("SignReport", SignReport)
